@@ -197,6 +197,28 @@ def js_nested_csv():
         raise RuntimeError('C06 js nested driver failed: ' + r.stderr.decode()[-400:])
 
 
+def generated_obligations(res):
+    """the row flow of both engines as regenerated on this run (also checked by Lean: theorem C06_generated_row_flows_pass_check,
+    whose meaning is C06_row_flow_sound)"""
+    import sys
+    sys.path.insert(0, str(common.ROOT / 'tools'))
+    import row_flow_scan
+    problems = []
+    try:
+        pf = row_flow_scan.scan_python(str(common.REPO / 'rbql-py' / 'rbql' / 'rbql_engine.py'), str(common.REPO / 'rbql-py'))
+        jf = row_flow_scan.scan_js(str(common.REPO / 'rbql-js' / 'rbql.js'), common.NODE)
+    except Exception as e:
+        return 1, 0, ['generated obligation C06_generated_row_flows_pass_check: the sources could not be scanned: %s' % e]
+    for name, fl in (('rbql_engine.py', pf), ('rbql.js', jf)):
+        res.notes.append('row flow of %s: %d bindings, mutated %s, written %s%s' % (name, len(fl.binds), fl.mutated, fl.written, (' notes: %s' % fl.notes) if fl.notes else ''))
+        bad = row_flow_scan.problems(fl)
+        if bad:
+            may = sorted(row_flow_scan.may_input(fl))
+            problems.append('generated obligation C06_generated_row_flows_pass_check fails for %s: %s may denote an object of the caller tables (may-input set %s; bindings %s)'
+                            % (name, bad, may, [b for b in fl.binds if b[1] == 'alias' and b[2] in may and not b[0].split('.')[0] in row_flow_scan.WRITER_CLASSES][:8]))
+    return 1, (0 if problems else 1), problems
+
+
 def gen_cases(seed, n):
     import corr_C01, corr_C02, corr_C03, corr_C04, corr_C05
     rnd = random.Random(seed * 60013 + 6)
